@@ -157,6 +157,24 @@ pub fn gen(tier: &str, seed: u64) -> Gen {
         cases.push(mk(&mut rng, t));
     }
     fams.push(("random trees to depth 4 mixing short-circuit and other operators".to_string(), nrand, false));
+    // deciding operands that are floats at and next to zero: only an exact zero (of either sign) is false
+    let mut nz = 0;
+    for fv in &["1e-20", "1e-300", "5e-324", "1e-16", "2.3e-16", "0.0", "0e5", "0.5", "Inf"] {
+        for lit in 0..3 {
+            for op in 0..3 {
+                let mut k = 0i64;
+                let c = match lit { 0 => flt(fv), 1 => rec(&mut k, fv), _ => un("-", flt(fv)) };
+                let t = match op {
+                    0 => bin("&&", c, rec(&mut k, "1")),
+                    1 => bin("||", c, tag("unset", vec![ti(0)])),
+                    _ => { let a = rec(&mut k, "5"); let b = rec(&mut k, "6"); cond(c, a, b) }
+                };
+                cases.push(mk(&mut rng, t));
+                nz += 1;
+            }
+        }
+    }
+    fams.push(("&&, ||, ?: decided by floats at and next to zero (subnormal, below machine epsilon, negated, computed by a command)".to_string(), nz, true));
     (cases, fams)
 }
 
